@@ -1,5 +1,5 @@
 """Texts for MANIFEST.json, per property."""
-HOOK_COMMITS = ['38a46f2']
+HOOK_COMMITS = ['38a46f2', '3202107', '9a6c05b']
 
 TEXT = {
  'C09': dict(
@@ -8,5 +8,11 @@ TEXT = {
   note='Trusted: Coq kernel + vm_compute; gentables translator; Go harness + FormatCheck.v comparison; verif hook file. Modelled not verified: the scanner (the model consumes the implementation\'s token stream), textseg grapheme counts. No axioms (Print Assumptions: closed under the global context).',
   technique='Coq proof (induction over token lists) + exhaustive/differential model-code correspondence'),
 }
+
+TEXT['C17'] = dict(
+  level='Machine-checked Coq theorems (std++ gmap) over a model of the only shared mutable state of a parsed tree, AnonSymbolExpr.values under valuesLock: for ANY number of goroutines, ANY schedule and ANY (even adaptive, data-dependent) evaluation strategies, if every EvalContext is used by one goroutine only, each goroutine observes exactly what it observes running alone, and the table is empty again after complete splat programs (no leak between evaluations). The tie to the code is checked on every run: a table regenerated from the Go source lists every access to .values and its lock (ops_guarded fails to compile if an access is added or a lock removed), and recorded lock-ordered traces of real concurrent evaluations are replayed on the model (legal history, splat-shaped per-goroutine programs). Partial: Go memory-model data races cannot be exhibited by the model; go -race on the same workload is supporting evidence only.',
+  design_ref='DESIGN.md §5 C17',
+  note='Trusted: Coq kernel, gentables (go/ast), Go harness + AnonSymCheck.v, hook files (add-only; empty without tag). Modelled not verified: Go runtime/scheduler/memory model, sync.RWMutex. No axioms.',
+  technique='Coq proof (induction over schedules) + regenerated lock table + trace replay; race detector as supporting evidence')
 
 NOT_APPLICABLE = {p: 'not yet built in this round (the design in DESIGN.md applies; no check is registered until its floor exists)' for p in ['C%02d' % i for i in range(1, 21)]}
